@@ -133,7 +133,7 @@ func (ex *Exec) interpretable(fn *ssa.Function) bool {
 		return true
 	}
 	switch p.Path() {
-	case "sort", "slices", "cmp", "path", "unicode/utf8", "unicode", "io/fs", "internal/bytealg", "internal/stringslite":
+	case "sort", "slices", "cmp", "path", "unicode/utf8", "unicode", "io/fs", "internal/bytealg", "internal/stringslite", "math/bits":
 		return true
 	case "strings":
 		switch fn.Name() {
